@@ -88,7 +88,11 @@ def pool_items():
     pair = st.one_of(st.just([]), gen_macro.macro_programs(single_file=True, max_stmts=20).map(macro_pair))
     ws_item = st.one_of(st.just([]), gen_macro.macro_programs(single_file=False, max_stmts=20).filter(lambda c: c.get("files")).map(lambda c: [{"kind": "ws", "case": c}]))
     memo = st.one_of(st.just([]), memo_table_inputs())
-    return st.tuples(p_item, s_item, e_item, st.lists(weighted((1, p_item), (2, s_item), (1, e_item)), min_size=0, max_size=3), pair, ws_item, memo).map(lambda t: [t[0], t[1], t[2]] + t[3] + t[4] + t[5] + t[6])
+    # sizes: one pool in five holds a program nested 60-240 blocks deep (a result that depends on how much stack earlier
+    # calls left configured shows only there)
+    vdeep = weighted((4, st.just([])), (1, st.fixed_dictionaries({"kind": st.just("program"), "vdeep": st.fixed_dictionaries({
+        "shape": st.just("nest"), "n": st.integers(60, 240), "kinds": st.lists(st.sampled_from(["if", "if", "else", "switch", "forever"]), min_size=1, max_size=3)})}).map(lambda x: [x])))
+    return st.tuples(p_item, s_item, e_item, st.lists(weighted((1, p_item), (2, s_item), (1, e_item)), min_size=0, max_size=3), pair, ws_item, memo, vdeep).map(lambda t: [t[0], t[1], t[2]] + t[3] + t[4] + t[5] + t[6] + t[7])
 
 
 @st.composite
